@@ -387,7 +387,7 @@ def gen_c05(rng, tier):
         codes = [0, 0, 1, 255, rng.below(256)] + ([rng.below(256) for _ in range(10)] if tier == 'thorough' else [])
         for ty in types4:
             for code in codes:
-                ln = rng.choice([0, 1, 4, 8, 13, 56, 100, 1472, rng.below(1473)])
+                ln = rng.choice([0, 1, 4, 8, 13, 56, 100, 1472, 1473, 1475, 1476, rng.below(1477), 1468 + rng.below(9)])
                 frames.append(w.f4(1, icmp(ty, code, rng.bytes(ln)), dst=rng.choice([None, None, None, w.other4])))
         for ty in types6:
             for code in codes:
@@ -401,7 +401,7 @@ def gen_c05(rng, tier):
                     frames.append(eth(rng.choice([w.mac, bytes([0x33, 0x33, 0xff]) + tgt[13:]]), w.cl_mac, 0x86dd,
                                       ipv6(w.cl6, rng.choice([sn, w.my6, w.my6b]), 58, icmp6(135, code, rest, w.cl6, sn))))
                 else:
-                    ln = rng.choice([0, 1, 4, 8, 13, 56, 100, 1452, rng.below(1453)])
+                    ln = rng.choice([0, 1, 4, 8, 13, 56, 100, 1452, 1455, 1456, rng.below(1457), 1448 + rng.below(9)])
                     frames.append(w.f6(58, icmp6(ty, code, rng.bytes(ln), w.cl6, dst or w.my6), dst=dst))
         cases.append(case(w, frames, ['arp-grid', 'icmp-grid']))
     return cases
